@@ -541,6 +541,79 @@ func runC03(r *Run) {
 		r.Count("R9 fresh base accounts built in consensus scope", nFresh)
 		r.Floor("R9", "fresh base accounts built in consensus scope", nFresh, 2)
 	}
+	r.Rule("R10", "PATH+TABLE.wrapper-is-canonical: the Cosmos envelope of an Ethereum transaction is not signed, so EthValidateBasicDecorator pins it to the signed content: next is reachable (bypass: recheck) only where AuthInfo.Fee.Amount.IsEqual(sum of the messages' Fee() in the EVM denomination) — equality of the whole coin set — and AuthInfo.Fee.GasLimit equals the sum of the messages' gas; every field of TxBody, AuthInfo and Fee is read by the decorator (verified empty or matched), except the tabled AuthInfo.Tip (no tip handler is installed)")
+	if vb, ok := P.FnOK("(app/ante/evm.EthValidateBasicDecorator).AnteHandle"); ok {
+		next := nextCallPred(vb)
+		bypass := boolCallEdges(vb, "IsReCheckTx")
+		requireGuard(r, "R10", fnID(vb)+"#fee-amount-equals-tx-fees", vb, func(cond ssa.Value) (bool, bool) {
+			c, ok := cond.(*ssa.Call)
+			if !ok || callInfo(c).Name != "IsEqual" {
+				return false, false
+			}
+			a := callArgs(c)
+			if len(a) != 2 {
+				return false, false
+			}
+			l, rr := backSlice(a[0]), backSlice(a[1])
+			isDecl := func(s *Slice) bool { return s.HasField("Fee", "Amount") }
+			isTx := func(s *Slice) bool { return s.HasCall(func(g CallInfo) bool { return g.Name == "Fee" }) }
+			return true, (isDecl(l) && isTx(rr)) || (isDecl(rr) && isTx(l))
+		}, bypass, next, "next only where the declared fee coins equal the transactions' fees (whole coin set)", "the eth route accepts an envelope whose declared fee is not exactly the signed transactions' fee (e.g. compared in one denomination only): the unsigned envelope can be altered by whoever relays it")
+		requireGuard(r, "R10", fnID(vb)+"#gas-limit-equals-tx-gas", vb, func(cond ssa.Value) (bool, bool) {
+			b, ok := cond.(*ssa.BinOp)
+			if !ok || (b.Op != token.EQL && b.Op != token.NEQ) {
+				return false, false
+			}
+			l, rr := backSlice(b.X), backSlice(b.Y)
+			isDecl := func(s *Slice) bool { return s.HasField("Fee", "GasLimit") }
+			isTx := func(s *Slice) bool { return s.HasCall(func(g CallInfo) bool { return g.Name == "GetGas" }) }
+			if (isDecl(l) && isTx(rr)) || (isDecl(rr) && isTx(l)) {
+				return b.Op == token.EQL, true
+			}
+			return false, false
+		}, bypass, next, "next only where the declared gas limit equals the transactions' gas", "the eth route accepts an envelope whose gas limit differs from the signed transactions' gas")
+		// field coverage
+		read := map[string]bool{}
+		eachInstr(vb, func(in ssa.Instruction) {
+			if v, ok := in.(ssa.Value); ok {
+				if sn, f, ok := fieldOfAddr(v); ok {
+					read[sn+"."+f] = true
+				}
+				if sn, f, ok := fieldOfValue(v); ok {
+					read[sn+"."+f] = true
+				}
+			}
+		})
+		// getters count as reads of the field they return
+		eachCall(vb, func(ci CallInfo) {
+			if ci.Name == "GetMsgs" && ci.Recv == "Tx" {
+				read["TxBody.Messages"] = true
+			}
+		})
+		tabled := map[string]string{"AuthInfo.Tip": "no tip handler is installed in Haqq's ante/post chain: the field has no effect", "TxBody.Messages": "read through GetMsgs()"}
+		for _, tn := range []string{"TxBody", "AuthInfo", "Fee"} {
+			t := P.LookupType("github.com/cosmos/cosmos-sdk/types/tx", tn)
+			if t == nil {
+				r.Bad("R10", "anchor/tx."+tn, "", "type not found")
+				continue
+			}
+			st, _ := t.Type().Underlying().(*types.Struct)
+			for i := 0; st != nil && i < st.NumFields(); i++ {
+				f := st.Field(i)
+				if !f.Exported() || strings.HasPrefix(f.Name(), "XXX") {
+					continue
+				}
+				key := tn + "." + f.Name()
+				if why, ok := tabled[key]; ok && !read[key] {
+					r.OK("R10", fnID(vb)+"#reads/"+key, P.Pos(fnPos(vb)), "tabled: "+why)
+					continue
+				}
+				r.Check(read[key], "R10", fnID(vb)+"#reads/"+key, P.Pos(fnPos(vb)), "read by the decorator", "EthValidateBasicDecorator never looks at "+key+" of the unsigned envelope: whoever relays the transaction can set it")
+			}
+		}
+	} else {
+		r.Bad("R10", "anchor/EthValidateBasicDecorator.AnteHandle", "", "not found")
+	}
 	r.Rule("R8", "OWN/FLOW.nonce-not-rewound: the ante handler advances the sender's sequence once per Ethereum message (R3); any other consensus-scope write of an account nonce outside x/evm/statedb — StateDB.SetNonce from keeper code — is either a temporary reset that is followed on every path by another SetNonce, or its value depends on the nonce found before (GetNonce), so that it cannot fall behind what the ante handler set (a batch [create n, call n+1] otherwise ends at n+1 and the call can be executed again)")
 	nSet := 0
 	for _, fn := range scopesOf(r).S.HaqqFuncs() {
